@@ -703,7 +703,7 @@ func init() {
 		ID:    "C05",
 		Level: "fault_enumeration",
 		Rule: "realtime: all byte strings <= 2 (thorough 3) bytes and all strings <= 4 (thorough 5) over a 20-byte wire alphabet in 4 framings (raw, after a valid header, inside an entity, inside a trip update) x 3 extension configurations; semantically malformed messages within k deviations (quick 2, thorough 3) x all 29 extension configurations; every truncation and every single-byte substitution (15 values) of 7 valid seed messages x 3 configurations; accessor sweep (getters, hashes, journals over 10 histories x 3 windows, CSV export) on every accepted result. " +
-			"static: structural faults per table (k <= 2 tables at once), every column of every file x 29 nasty values (4-field and empty-field times, non-ASCII digits, huge / special numbers, impossible dates, control characters, a 400-digit number) x 3 row placements, all CSV bodies <= 4 (thorough 6) over an 8-character alphabet appended to each of the 10 files, every truncation and single-byte substitution of 2 (thorough 6) seed archives; accessor sweep (acyclicity, Root(), pointer walk). " +
+			"static: structural faults per table (k <= 2 tables at once), the product of colliding stop ids x parent_station values over 0..3 rows (cycles, duplicates, blank and dangling ids), every column of every file x 29 nasty values (4-field and empty-field times, non-ASCII digits, huge / special numbers, impossible dates, control characters, a 400-digit number) x 3 row placements, all CSV bodies <= 4 (thorough 6) over an 8-character alphabet appended to each of the 10 files, every truncation and single-byte substitution of 2 (thorough 6) seed archives; accessor sweep (acyclicity, Root(), pointer walk). " +
 			"non-trivial = distinct inputs other than the empty string; oracle = no panic, no worker death, no 60 s stall",
 		Assumptions: []string{"resource use proportional to the decompressed input is out of scope", "a nil *ParseRealtimeOptions is API misuse, not an input", "panic signatures normalise numbers so that one defect is one finding"},
 		Scenarios: func(tier string) []*Scenario {
@@ -717,6 +717,18 @@ func init() {
 				{Name: "rt/semantic", Bound: k, Run: c05Semantic(c05AllConfigs())},
 				{Name: "rt/byte-faults", Bound: -1, Run: c05ByteFaults(rtSeeds, func(c *Ctx, b []byte, v int) bool { return c05ParseRT(c, b, c05ThreeConfigs[v]) }, 3)},
 				{Name: "static/structural", Bound: 2, Run: c05StaticStructural},
+				{Name: "static/stop-hierarchies", Bound: -1, Run: func(c *Ctx) {
+					// the C03 product of colliding stop ids and parents (self, mutual and longer cycles,
+					// duplicates, blank and dangling ids): Root() of every stop must terminate
+					m, n, desc := c03StopsModel(c, 3)
+					c.SetMapRotation(c.Free("map_rotation", 2))
+					b := renderFeed(m, presentation{})
+					c.Input(hash64(string(b)), n >= 2, func() string { return desc })
+					if c05ParseStatic(c, b, c.Free("inherit", 2)) {
+						c.Witness("accepted")
+					}
+					c.SetMapMode(mapFixed)
+				}},
 				{Name: "static/nasty-cells", Bound: -1, Run: c05NastyCells},
 				{Name: fmt.Sprintf("static/csv-bodies<=%d", cl), Bound: -1, Run: c05CsvBodies(cl)},
 				{Name: "static/container-faults", Bound: -1, Run: c05ByteFaults(staticSeeds(ns), c05ParseStatic, 1)},
